@@ -5,14 +5,16 @@ MANIFEST = dict(
     text="The greedy max-min specification is decided on the real bodies of MaxDis and MaxDis_Fast for bounded object counts with arbitrary (oracle) distance values, "
          "hence for every metric: indices in range, pairwise distinct, requested count; the first element is the object farthest from the centroid; "
          "every further element maximises, over the objects not yet chosen, the minimum distance to those already chosen (first maximum on ties). "
+         "The two steps of a k-means iteration are decided on their real bodies in exact ring arithmetic (double := Z/256): every object of a worker's slice gets an in-range label "
+         "that minimises the computed distance (first minimum, sqrt uninterpreted), the worker writes nothing outside its slice and agrees with the single-thread routine; each centroid "
+         "is the sum of the objects carrying its label divided by their number, an empty cluster takes an in-range object. "
          "The k-means labelling partition among threads is decided under C13 (slice_getLabels_).",
-    note="Bounded (objects <= 3: four objects exhaust the solver's memory; selection sizes up to and above the object count). MaxDis_Fast is checked against the same specification for selection sizes up to the object count (it does not clamp larger requests); MDC, k-means++ and the k-means centroid/nearest-centroid "
-         "clauses are not under contract. "
+    note="Bounded (objects <= 3: four objects exhaust the solver's memory; selection sizes up to and above the object count). MaxDis_Fast is checked against the same specification for selection sizes up to the object count (it does not clamp larger requests); MDC and k-means++ selections (distinctness) are not under contract; the k-means step obligations are in ring mode (rounding and the convergence tolerance are not decided). "
          "Distances are oracles: CalculateDistance and the centroid distance (one variable, sqrt identity on the oracle tags).",
     technique="CBMC on the real MaxDis body with oracle distances; postconditions as harness assertions; bounded object counts")
 
-META = dict(decided="MaxDis and MaxDis_Fast: range, distinctness, count, first = farthest from centroid, greedy max-min step (same specification)",
-            not_decided="MDC / k-means++ selections; k-means centroid = mean and nearest-centroid labels (numerical); convergence tolerance semantics",
+META = dict(decided="MaxDis and MaxDis_Fast: range, distinctness, count, first = farthest from centroid, greedy max-min step (same specification); k-means labelling = in-range first nearest centroid, worker frame, worker == single-thread; centroid = mean of its objects",
+            not_decided="MDC / k-means++ selections; rounding in the k-means steps; convergence tolerance semantics",
             trusted_base=["oracle distances in harness/C17/maxdis.c"], assumptions=[])
 
 S = ["matrix.c", "vector.c", "memwrapper.c", "numeric.c"]
@@ -31,4 +33,15 @@ def jobs(tier):
                      functions=["MaxDis_Fast", "square_to_condensed_index"], timeout=900, object_bits=12, cbmc_flags=["--slice-formula"],
                      bound="%d objects, %d requested (<= objects); all pair distances arbitrary" % (nobj, nsel),
                      clause="MaxDis_Fast satisfies the same greedy max-min specification as MaxDis (so both return the same sequence whenever the condensed and square distances agree, C13)"))
+    KS = ["vector.c", "memwrapper.c", "numeric.c", "matrix.c", "metricspace.c", "tensor.c", "list.c", "statistic.c", "pca.c", "preprocessing.c", "algebra.c", "graphs.c"]
+    for (r, c, k) in ([(3, 1, 2), (2, 2, 2), (2, 1, 3)] if tier == "quick" else [(3, 1, 2), (2, 2, 2), (2, 1, 3), (3, 1, 3), (1, 1, 1)]):
+        J.append(Job("kmeans_labels@r=%d,c=%d,k=%d" % (r, c, k), "C17/kmeans_steps.c", entry="h_kmeans_labels", srcs=KS, kind="bounded", mode="ring", defines={"VC_R": r, "VC_C": c, "VC_K": k},
+                     unwind=max(r, c, k) + 3, functions=["getLabelsWorker", "getLabels"], timeout=900, bound="%d objects x %d variables, %d centroids; symbolic data in the ring Z/256; every slice" % (r, c, k),
+                     clause="k-means labelling: label in range, a nearest centroid (first minimum), frame of the worker slice, worker == single-thread"))
+    for (lab, r, c, k) in ([("{0,1,0}", 3, 1, 2), ("{1,1}", 2, 2, 2), ("{2,0,2}", 3, 1, 3), ("{0,0,0}", 3, 2, 1)] if tier == "quick" else
+                           [("{0,1,0}", 3, 1, 2), ("{1,1}", 2, 2, 2), ("{2,0,2}", 3, 1, 3), ("{0,0,0}", 3, 2, 1), ("{0,1,1,0}", 4, 2, 2), ("{1,0,2,1}", 4, 1, 3), ("{3,3,0}", 3, 1, 4)]):
+        tag = "lab=%s,c=%d,k=%d" % (lab.replace(",", ""), c, k)
+        J.append(Job("kmeans_centroids@" + tag, "C17/kmeans_steps.c", entry="h_kmeans_centroids", srcs=KS, kind="bounded", mode="ring", defines={"VC_R": r, "VC_C": c, "VC_K": k, "VC_LAB": lab},
+                     unwind=max(r, c, k) + 3, functions=["getCentroids"], timeout=900, bound="labels %s over %d clusters, %d variables; symbolic data in the ring Z/256" % (lab, k, c),
+                     clause="k-means centroid update: centroid = mean of the objects carrying its label; empty cluster = an in-range object; labels untouched"))
     return J
